@@ -208,6 +208,9 @@ type FirstDecode struct {
 	Sig  sig.PacketSig
 }
 
+// Modified lists the first layer types of inputs that decoding in place (NoCopy) changed while the corpus was built.
+var Modified []string
+
 var (
 	RecordFirst   bool
 	First         []FirstDecode
@@ -234,11 +237,17 @@ func addr(b []byte) uintptr { return uintptr(unsafe.Pointer(unsafe.SliceData(b))
 // layer as a seed for its type.
 func (c *Corpus) addDecoded(data []byte, first gopacket.LayerType) int {
 	var p gopacket.Packet
-	if pi := vlib.Guard(func() {
+	pristine := append([]byte{}, data...)
+	pi := vlib.Guard(func() {
 		note(first, data)
 		p = gopacket.NewPacket(data, first, gopacket.DecodeOptions{NoCopy: true, DecodeStreamsAsDatagrams: true})
 		p.Layers()
-	}); pi != nil || p == nil {
+	})
+	if !bytes.Equal(data, pristine) {
+		Modified = append(Modified, first.String())
+		copy(data, pristine)
+	}
+	if pi != nil || p == nil {
 		return 0
 	}
 	if RecordFirst && firstFixtures < 1500 && len(data) <= 2048 {
@@ -357,11 +366,18 @@ func Build(repo string) *Corpus {
 	for t, list := range handMade() {
 		for _, b := range list {
 			ok := false
+			pristine := append([]byte{}, b...)
 			vlib.Guard(func() {
 				note(t, b)
 				ls := gopacket.NewPacket(b, t, gopacket.DecodeOptions{NoCopy: true}).Layers()
 				ok = len(ls) > 0 && ls[0].LayerType() != gopacket.LayerTypeDecodeFailure
 			})
+			if !bytes.Equal(b, pristine) {
+				// the builder decodes in place (NoCopy); a decoder that writes to its input has just damaged the seed itself,
+				// and every later use would see the damaged bytes consistently: remember it (C02 reports it) and restore
+				Modified = append(Modified, t.String())
+				copy(b, pristine)
+			}
 			// kept whether or not it decodes: the encodings are well-formed by construction, so a tree on which one of them
 			// fails to decode is exactly a tree the checks should see it on
 			if !ok {
